@@ -394,9 +394,12 @@ def cellStep (O : Oracles) (q : AggStmt) (env : Env) (k : AggKind) (c : Cell) : 
     let v ← eval O env e
     match v with
     | .text s =>
-      match c.val.getD (.text []) with
-      | .text cur => pure { c with val := some (.text (if cur.isEmpty then s else cur ++ delim ++ s)) }
-      | other => pure { c with val := some other }
+      -- the delimiter stands between ALL non-NULL values of the group, also after an empty text (D67 repaired):
+      -- `first_value` = the group has no entry for this aggregate yet
+      match c.val with
+      | none => pure { c with val := some (.text s) }
+      | some (.text cur) => pure { c with val := some (.text (cur ++ delim ++ s)) }
+      | some other => pure { c with val := some other }
     | .null => pure c
     | _ => .error .expectedStringValue
 
